@@ -537,8 +537,19 @@ def l6(ctx):
                     okc = False
                 if not (to is not None and to.k == 'selfattr' and to.a[1] == '_timeout'):
                     okc = False
+                # the database is the plain file <directory>/<DBNAME>: no URI form (an unencoded path with #, ? or %
+                # would name another file), no uri=True
+                a0 = ev.d['args'][0] if ev.d['args'] else ev.d['kwargs'].get('database')
+                uri = ev.d['kwargs'].get('uri')
+                plain = a0 is not None and a0.k == 'ext' and a0.a[0] == 'os.path.join'
+                if plain:
+                    ja = p.trace[a0.a[1]].d['args']
+                    plain = len(ja) == 2 and ja[0].k == 'selfattr' and ja[0].a[1] == '_directory' and \
+                        ((ja[1].is_const and isinstance(ja[1].val, str)) or ja[1].k == 'modconst')
+                if not plain or not (uri is None or (uri.is_const and not uri.val)):
+                    okc = False
     obs.append(Ob('L6', 'connect-autocommit-with-timeout', okc and nc > 0,
-                  'sqlite3.connect is not called with isolation_level=None and timeout=self._timeout: implicit '
+                  'sqlite3.connect is not called on the plain path join(self._directory, DBNAME) with isolation_level=None and timeout=self._timeout: implicit '
                   'transactions of the sqlite3 module would hold or break the explicit BEGIN IMMEDIATE protocol, or the '
                   'configured lock timeout would not apply', con.loc()))
     # pid check: mismatch -> close and re-stamp
